@@ -319,10 +319,10 @@ cdef class LinkedListNNPS(NNPS):
         self.ncells_per_dim.data[1] = ncy
         self.ncells_per_dim.data[2] = ncz
 
-        # total number of cells
-        _ncells = ncx
-        if dim == 2: _ncells = ncx * ncy
-        if dim == 3: _ncells = ncx * ncy * ncz
+        # total number of cells.  The flattened cell index always uses all
+        # three directions (a single particle or coincident particles get a
+        # unit box in every direction whatever `dim` is), so must the count.
+        _ncells = ncx * ncy * ncz
         return _ncells
 
     @cython.boundscheck(False)
